@@ -163,16 +163,21 @@ class Filtered:
     """View of a Result that records only the obligations of the given rules (used when a property imports part of
     another rule family, so that it does not alarm about clauses that are not its own)."""
 
-    def __init__(self, res, allowed, key_prefixes=None):
+    def __init__(self, res, allowed, key_prefixes=None, key_contains=None):
         self.res = res
         self.allowed = set(allowed)
         self.extra = res.extra
         # optional: within the allowed rules, only obligations whose key starts with one of these prefixes
         self.key_prefixes = tuple(key_prefixes) if key_prefixes else None
+        # optional: {rule: (substring, ...)} - for those rules only obligations whose key contains one of the substrings
+        self.key_contains = key_contains or {}
 
     def ob(self, rule, *a, **k):
         if rule in self.allowed:
             if self.key_prefixes is not None and a and not str(a[0]).startswith(self.key_prefixes):
+                return True
+            subs = self.key_contains.get(rule)
+            if subs and a and not any(x in str(a[0]) for x in subs):
                 return True
             return self.res.ob(rule, *a, **k)
         return True
